@@ -49,8 +49,8 @@ theorem property_forwards (rec : Rec) (path : List PathEntry) (fv : FV) (ps : Sh
 /-- each result carries the severity and declared messages of the shape that owns the constraint -/
 theorem result_owner (s : Shape) (k : CKind) (f : Term) (v p comp : Option Term) (d : List Result) :
     (mkResult s k f v p comp d).shape = s.node ∧ (mkResult s k f v p comp d).severity = s.severity ∧
-    (match mkResult s k f v p comp d with | .mk _ _ _ _ _ _ m _ => m = s.messages) := by
-  simp [mkResult, Result.shape, Result.severity]
+    (mkResult s k f v p comp d).messages = s.messages := by
+  simp [mkResult, Result.shape, Result.severity, Result.messages]
 
 /-! non-vacuity: sh:or of two failing members reports one OrConstraintComponent result and nothing of the members -/
 def exN (s : String) : Term := .iri ("http://ex.test/" ++ s)
